@@ -17,6 +17,8 @@ mut('C15','header-plain-write','%sfile_header.rs'%L, '        write!(writer, "{H
 mut('C15','helpers-swallowed','%sdoc.rs'%L, '        Helpers.write_xml(writer)?;', '        let _ = Helpers.write_xml(writer);')
 mut('C15','soap-action-expect','%ssoap/binding/writer.rs'%L, '    writeln!(writer, "    let url = \\"{action}\\";")?;', '    writeln!(writer, "    let url = \\"{action}\\";").expect("write url");')
 mut('C15','error-remapped','%shelpers.rs'%L, '    writeln!(writer, "  }}")?;\n    writeln!(writer, "}}")?;', '    writeln!(writer, "  }}").map_err(|e| crate::error::WriterError::new(e))?;\n    writeln!(writer, "}}")?;')
+mut('C15','final-flush-ignored','%sdoc.rs'%L, '        Helpers.write_xml(writer)?;\n\n        Ok(())', '        Helpers.write_xml(writer)?;\n        let _ = writer.flush();\n\n        Ok(())')
+mut('C15','PRESERVING-final-flush-checked','%sdoc.rs'%L, '        Helpers.write_xml(writer)?;\n\n        Ok(())', '        Helpers.write_xml(writer)?;\n        writer.flush()?;\n\n        Ok(())', expect='silent')
 # preserving
 mut('C15','PRESERVING-write-with-newline','%sdoc.rs'%L, '            writeln!(writer, "}}")?;', '            write!(writer, "}}\\n")?;', expect='silent')
 # ---- C12
@@ -49,6 +51,9 @@ mut('C17','scan-current-dir','zeep-lib/src/utils.rs', '        Path::new(".")\n 
 mut('C17','write-result-ignored',Z, '    file.write_all(&generated).expect("can not write file");', '    let _ = file.write_all(&generated);')
 mut('C17','plain-write',Z, '    file.write_all(&generated).expect("can not write file");', '    file.write(&generated).expect("can not write file");')
 mut('C17','exit-zero-on-read-error',Z, '    let document = XmlReader::read_xml(&files).expect("can not read xml");', '    let document = match XmlReader::read_xml(&files) {\n        Ok(d) => d,\n        Err(e) => {\n            eprintln!("can not read xml: {e}");\n            return;\n        }\n    };')
+mut('C17','tempfile-rename-unchecked',Z, '    let mut file = File::create(output_file).expect("can not create file");\n    file.write_all(&generated).expect("can not write file");', '    let tmp = output_file.with_extension("rs.tmp");\n    let mut file = File::create(&tmp).expect("can not create file");\n    file.write_all(&generated).expect("can not write file");\n    drop(file);\n    let _ = std::fs::rename(&tmp, &output_file);')
+mut('C17','tempfile-sync-unchecked',Z, '    let mut file = File::create(output_file).expect("can not create file");\n    file.write_all(&generated).expect("can not write file");', '    let tmp = output_file.with_extension("rs.tmp");\n    let mut file = File::create(&tmp).expect("can not create file");\n    let _ = file.write_all(&generated);\n    file.sync_all().expect("can not sync");\n    drop(file);\n    std::fs::rename(&tmp, &output_file).expect("can not rename");')
+mut('C17','PRESERVING-tempfile-rename-checked',Z, '    let mut file = File::create(output_file).expect("can not create file");\n    file.write_all(&generated).expect("can not write file");', '    let tmp = output_file.with_extension("rs.tmp");\n    let mut file = File::create(&tmp).expect("can not create file");\n    file.write_all(&generated).expect("can not write file");\n    file.sync_all().expect("can not sync");\n    drop(file);\n    std::fs::rename(&tmp, &output_file).expect("can not rename");', expect='silent')
 mut('C17','PRESERVING-bufwriter-checked-flush',Z, '    file.write_all(&generated).expect("can not write file");', '    let mut buffered = std::io::BufWriter::new(&mut file);\n    buffered.write_all(&generated).expect("can not write file");\n    buffered.flush().expect("can not flush file");', expect='silent')
 
 os.makedirs(OUT, exist_ok=True)
